@@ -34,7 +34,7 @@ LEVEL.update({
 LEVEL.update({
  "C02":("the real schema validation (validateDecl: kinds, templates, children, parents) and ParseNode with the real xpath engine are executed symbolically over a schema family with symbolic flags and records with symbolic texts, and compared with an independent reference evaluator written from the documents (arrays in declaration order, template inlining, anchoring rules, trim/cast/omit)",
         "17-schema family (templates, ignore_error inline/through templates/next to a strict twin, field names with '.' and '%', empty containers, 12-element arrays); real computeDeclHash; kept empty values: null ≡ empty container; undocumented combinations excluded (listed in evidence)"),
- "C11":("differential: the same real xpath engine over idr's navigator and over the reference DOM binding (xmlquery), both executed symbolically on the same bytes, 30 expressions over all axes / positional predicates / functions; results compared by position, name, kind and string value",
+ "C11":("differential: the same real xpath engine over idr's navigator and over the reference DOM binding (xmlquery), both executed symbolically on the same bytes, 45 expressions over all axes / positional predicates / functions / predicates on attribute steps, started at the document, the root element or an inner element, plus a namespace document family (prefixed elements, prefixed and unprefixed attributes); results compared by position, name, kind and string value",
         "text()/node() tests on character data excluded (reference v1.3.1 deviates itself); expressions limited to the listed ones"),
  "C13":("two-run non-interference: ParseNode with the per-record result cache on vs. off on the same symbolic record, over a 17-schema family built to share declaration text across positions, with the REAL computeDeclHash (json.Marshal with struct tags/MarshalJSON executed through the engine's model, uuid as a per-path counter); the ingester's per-record context is covered by an ancestor-anchored declaration in C10IngesterStep; node pool on/off equivalence is part of the C12 create step; xpath-expression cache: real LRU code executed as part of every harness",
         "goja caches are C20's; the LRU's eviction is not reached (capacity 65536)"),
@@ -48,19 +48,19 @@ LEVEL.update({
         "text parsing and layouts (times.SmartParse, time.Parse/Format) are cut away in the engine (natively they run); zones: 4, years: 2021 (quick) / 2018-2023 (thorough)"),
 })
 LEVEL.update({
- "C20":("pool hygiene and _node freshness on the real javascript.go code: two consecutive calls over every subset of argument names (incl. a built-in's name), first script returning or throwing, the second call getting the pooled VM: the globals visible to the second script are exactly the built-ins plus its own arguments; _node of a node built from recycled memory; the stale _node of a changing ancestor is the recorded finding F5",
-        "goja is modelled by its global-variable table (the JS engine itself — value mapping, NaN/null rejection, exceptions — is outside); natively the real goja runs the equivalent script"),
+ "C20":("pool hygiene and _node freshness on the real javascript.go code: two consecutive calls over every subset of argument names (incl. a built-in's name), first script returning or throwing, the second call getting the pooled VM: the globals visible to the second script are exactly the built-ins plus its own arguments; _node of a node built from recycled memory; NaN/±Infinity/null/undefined results rejected; program cache keyed by the exact script text; the stale _node of a changing ancestor is the recorded finding F5",
+        "goja is modelled by its global-variable table, result kinds and string literals of marker scripts (the JS engine itself is outside); natively the real goja runs the equivalent script"),
 })
 LEVEL.update({
  "C18":("the real reader stack NewTransform builds (charset decoder selection, x/text charmap decoder and transform.Reader, BOM strip through bufio.ReadRune) executed symbolically on arbitrary bytes: the bytes handed to the format reader equal stripLeadingBOM(decode(input)) for an independent code-page table, for every declared encoding",
         "inputs ≤ bound bytes plus inputs placed across the 4096/8192-byte internal buffer boundaries; undefined windows-1252 bytes excluded; that equal bytes give equal results downstream is each format reader's determinism (C15)"),
 })
 LEVEL.update({
- "C14":("bounded thread model on the real code: two goroutines (transform over a shared validated declaration tree with cold xpath cache; javascript custom functions over the shared VM pool and program cache; whole ingester runs over one schema through the shared node pool; racing node acquisitions) under every sequentially consistent interleaving of their synchronisation operations (sync/atomic, Mutex/RWMutex incl. the real golang-lru code, sync.Pool, sync.Once) within a preemption bound, with a vector-clock happens-before race monitor over every load/store/map operation and each thread's results compared with its serial run; plus the freeze condition on five reader/transform harnesses (no store into validated declarations while reading or transforming)",
+ "C14":("bounded thread model on the real code: two goroutines (transform over a shared validated declaration tree with cold xpath cache; queries through one cached compiled xpath; javascript custom functions over the shared VM pool and program cache; whole ingester runs over one schema through the shared node pool; racing node acquisitions) under every sequentially consistent interleaving of their synchronisation operations (sync/atomic, Mutex/RWMutex incl. the real golang-lru code, sync.Pool, sync.Once) within a preemption bound, with a vector-clock happens-before race monitor over every load/store/map operation and each thread's results compared with its serial run; plus the freeze condition on six reader/transform harnesses (EDI, csv2, fixedlength2, old fixed-length, transform declarations) (no store into validated declarations while reading or transforming)",
         "2 threads; preemptions ≤ 1..2 (quick) / 2..4 (thorough); sequential consistency (weak-memory effects are exactly the data races the monitor reports); accesses inside engine-side models of byte/string leaf functions are not monitored; goja internals modelled; GOMAXPROCS and the real scheduler appear only in the native -race replay"),
 })
 LEVEL.update({
- "C15":("two-run non-interference over hidden state decided inside single symbolic paths: the same transform before and after unrelated activity (pool contents, ID counter advance, all map-iteration permutations) yields byte-identical outputs and checksums; failure texts identical across independent schema loads under every map order; checksum injectivity on XML record shapes, with the attribute/mixed-content collision (F13) and the list-of-same-named-children collision (F24) recorded as findings",
+ "C15":("two-run non-interference over hidden state decided inside single symbolic paths: the same transform before and after unrelated activity (pool contents, ID counter advance, all map-iteration permutations) yields byte-identical outputs and checksums; failure texts identical across independent schema loads under every map order; customfuncs.Merge never writes into the registries it is given; checksum injectivity on XML record shapes, with the attribute/mixed-content collision (F13) and the list-of-same-named-children collision (F24) recorded as findings",
         "MD5/UUID trusted; separate processes subsumed by arbitrary process state"),
 })
 REASON_NOT_YET="check under construction in this session (see DESIGN.md §6); not claimed yet"
